@@ -291,91 +291,101 @@ inductive Step where
   | next (s : Bytes) (m : Msg) (miAt : Option Nat)
   deriving Repr
 
+/-! The branches of the decode loop, one small function per kind of attribute (`s` = stream after the attribute
+header, `aLen` = announced length, `set` = how the message is updated, `miAt` = `after_integrity` information). -/
+
+/-- a 32-bit value: PRIORITY, LIFETIME, CHANGE-REQUEST -/
+def stepU32 (set : Msg → Nat → Msg) (aLen : Nat) (s : Bytes) (m : Msg) (miAt : Option Nat) : Step :=
+  if aLen ≠ 4 then .fail else
+    let r := rdU32 s; .next r.2 (set m r.1) miAt
+
+/-- ERROR-CODE: reserved 16 bits, class, number, phrase -/
+def stepError (aLen : Nat) (s : Bytes) (m : Msg) (miAt : Option Nat) : Step :=
+  if aLen < 4 then .fail else
+    let r0 := rdU16 s
+    let r1 := rdU8 r0.2
+    let r2 := rdU8 r1.2
+    let r3 := rdRaw (aLen - 4) r2.2
+    .next r3.2 { m with errorCode := Int.ofNat (r1.1 * 100 + r2.1), errorPhrase := qtStr r3.1 } miAt
+
+/-- USE-CANDIDATE -/
+def stepFlag (aLen : Nat) (s : Bytes) (m : Msg) (miAt : Option Nat) : Step :=
+  if aLen ≠ 0 then .fail else .next s { m with useCandidate := true } miAt
+
+/-- CHANNEL-NUMBER: 16 bits and two reserved bytes -/
+def stepChannel (aLen : Nat) (s : Bytes) (m : Msg) (miAt : Option Nat) : Step :=
+  if aLen ≠ 4 then .fail else
+    let r := rdU16 s; .next (r.2.drop 2) { m with channelNumber := some r.1 } miAt
+
+/-- REQUESTED-TRANSPORT: 8 bits and three reserved bytes -/
+def stepTransport (aLen : Nat) (s : Bytes) (m : Msg) (miAt : Option Nat) : Step :=
+  if aLen ≠ 4 then .fail else
+    let r := rdU8 s; .next (r.2.drop 3) { m with requestedTransport := some r.1 } miAt
+
+/-- DATA, NONCE: `resize(a_length)` then read; no length check at all -/
+def stepBlob (old : Bytes) (set : Msg → Bytes → Msg) (aLen : Nat) (s : Bytes) (m : Msg) (miAt : Option Nat) : Step :=
+  let r := rdResize old aLen s; .next r.2 (set m r.1) miAt
+
+/-- RESERVATION-TOKEN, ICE-CONTROLLING, ICE-CONTROLLED: exactly 8 bytes, `resize` then read -/
+def stepFixed8 (old : Bytes) (set : Msg → Bytes → Msg) (aLen : Nat) (s : Bytes) (m : Msg) (miAt : Option Nat) : Step :=
+  if aLen ≠ 8 then .fail else
+    let r := rdResize old aLen s; .next r.2 (set m r.1) miAt
+
+/-- REALM, SOFTWARE, USERNAME: zero-initialised array, read, `QString::fromUtf8`; no length check -/
+def stepStr (set : Msg → Bytes → Msg) (aLen : Nat) (s : Bytes) (m : Msg) (miAt : Option Nat) : Step :=
+  let r := rdRaw aLen s; .next r.2 (set m (qtStr r.1)) miAt
+
+/-- the seven address attributes -/
+def stepAddr (xorId : Option Bytes) (set : Msg → Addr → Msg) (aLen : Nat) (s : Bytes) (m : Msg) (miAt : Option Nat) : Step :=
+  match decAddr aLen s xorId with
+  | none => .fail
+  | some r => .next r.2 (set m r.1) miAt
+
+/-- MESSAGE-INTEGRITY: 20 bytes, compared with the HMAC of the prefix (length field adjusted) unless the key is empty -/
+def stepMI (H : Bytes → Bytes) (buf key : Bytes) (done aLen : Nat) (s : Bytes) (m : Msg) : Step :=
+  if aLen ≠ 20 then .fail else
+    let r := rdRaw 20 s
+    if key ≠ [] ∧ r.1 ≠ hmacCode H 64 key (setLen (buf.take (Stun.headerSize + done)) (done + Stun.miAdjust)) then .fail
+    else .next r.2 m (some done)
+
+/-- FINGERPRINT: 32 bits, compared with the CRC of the prefix (length field adjusted); parsing stops here -/
+def stepFP (buf : Bytes) (done aLen : Nat) (s : Bytes) (m : Msg) : Step :=
+  if aLen ≠ 4 then .fail else
+    let r := rdU32 s
+    if r.1 ≠ fingerprintOf (setLen (buf.take (Stun.headerSize + done)) (done + Stun.fpAdjust)) then .fail
+    else .accept m done
+
 /-- the if/else chain of the decode loop for one attribute of type `aType` and announced length `aLen`;
 `s` is the stream after the attribute header, `buf` the whole packet, `done` the loop's counter -/
 def attrStep (H : Bytes → Bytes) (buf key : Bytes) (done aType aLen : Nat) (s : Bytes) (m : Msg)
     (miAt : Option Nat) : Step :=
-  if aType = Stun.priority then
-    if aLen ≠ 4 then .fail else
-      let r := rdU32 s; .next r.2 { m with priority := some r.1 } miAt
-  else if aType = Stun.errorCode then
-    if aLen < 4 then .fail else
-      let r0 := rdU16 s
-      let r1 := rdU8 r0.2
-      let r2 := rdU8 r1.2
-      let r3 := rdRaw (aLen - 4) r2.2
-      .next r3.2 { m with errorCode := Int.ofNat (r1.1 * 100 + r2.1), errorPhrase := qtStr r3.1 } miAt
-  else if aType = Stun.useCandidate then
-    if aLen ≠ 0 then .fail else .next s { m with useCandidate := true } miAt
-  else if aType = Stun.channelNumber then
-    if aLen ≠ 4 then .fail else
-      let r := rdU16 s; .next (r.2.drop 2) { m with channelNumber := some r.1 } miAt
-  else if aType = Stun.dataAttr then
-    let r := rdResize (m.data.getD []) aLen s; .next r.2 { m with data := some r.1 } miAt
-  else if aType = Stun.lifetime then
-    if aLen ≠ 4 then .fail else
-      let r := rdU32 s; .next r.2 { m with lifetime := some r.1 } miAt
-  else if aType = Stun.nonce then
-    let r := rdResize (m.nonce.getD []) aLen s; .next r.2 { m with nonce := some r.1 } miAt
-  else if aType = Stun.realm then
-    let r := rdRaw aLen s; .next r.2 { m with realm := some (qtStr r.1) } miAt
-  else if aType = Stun.requestedTransport then
-    if aLen ≠ 4 then .fail else
-      let r := rdU8 s; .next (r.2.drop 3) { m with requestedTransport := some r.1 } miAt
+  if aType = Stun.priority then stepU32 (fun m v => { m with priority := some v }) aLen s m miAt
+  else if aType = Stun.errorCode then stepError aLen s m miAt
+  else if aType = Stun.useCandidate then stepFlag aLen s m miAt
+  else if aType = Stun.channelNumber then stepChannel aLen s m miAt
+  else if aType = Stun.dataAttr then stepBlob (m.data.getD []) (fun m v => { m with data := some v }) aLen s m miAt
+  else if aType = Stun.lifetime then stepU32 (fun m v => { m with lifetime := some v }) aLen s m miAt
+  else if aType = Stun.nonce then stepBlob (m.nonce.getD []) (fun m v => { m with nonce := some v }) aLen s m miAt
+  else if aType = Stun.realm then stepStr (fun m v => { m with realm := some v }) aLen s m miAt
+  else if aType = Stun.requestedTransport then stepTransport aLen s m miAt
   else if aType = Stun.reservationToken then
-    if aLen ≠ 8 then .fail else
-      let r := rdResize (m.reservationToken.getD []) aLen s; .next r.2 { m with reservationToken := some r.1 } miAt
-  else if aType = Stun.software then
-    let r := rdRaw aLen s; .next r.2 { m with software := some (qtStr r.1) } miAt
-  else if aType = Stun.username then
-    let r := rdRaw aLen s; .next r.2 { m with username := some (qtStr r.1) } miAt
-  else if aType = Stun.mappedAddress then
-    match decAddr aLen s none with
-    | none => .fail
-    | some r => .next r.2 { m with mapped := r.1 } miAt
-  else if aType = Stun.changeRequest then
-    if aLen ≠ 4 then .fail else
-      let r := rdU32 s; .next r.2 { m with changeRequest := some r.1 } miAt
-  else if aType = Stun.sourceAddress then
-    match decAddr aLen s none with
-    | none => .fail
-    | some r => .next r.2 { m with source := r.1 } miAt
-  else if aType = Stun.changedAddress then
-    match decAddr aLen s none with
-    | none => .fail
-    | some r => .next r.2 { m with changed := r.1 } miAt
-  else if aType = Stun.otherAddress then
-    match decAddr aLen s none with
-    | none => .fail
-    | some r => .next r.2 { m with other := r.1 } miAt
-  else if aType = Stun.xorMappedAddress then
-    match decAddr aLen s (some m.id) with
-    | none => .fail
-    | some r => .next r.2 { m with xorMapped := r.1 } miAt
-  else if aType = Stun.xorPeerAddress then
-    match decAddr aLen s (some m.id) with
-    | none => .fail
-    | some r => .next r.2 { m with xorPeer := r.1 } miAt
-  else if aType = Stun.xorRelayedAddress then
-    match decAddr aLen s (some m.id) with
-    | none => .fail
-    | some r => .next r.2 { m with xorRelayed := r.1 } miAt
-  else if aType = Stun.messageIntegrity then
-    if aLen ≠ 20 then .fail else
-      let r := rdRaw 20 s
-      if key ≠ [] ∧ r.1 ≠ hmacCode H 64 key (setLen (buf.take (Stun.headerSize + done)) (done + Stun.miAdjust)) then .fail
-      else .next r.2 m (some done)
-  else if aType = Stun.fingerprint then
-    if aLen ≠ 4 then .fail else
-      let r := rdU32 s
-      if r.1 ≠ fingerprintOf (setLen (buf.take (Stun.headerSize + done)) (done + Stun.fpAdjust)) then .fail
-      else .accept m done
+    stepFixed8 (m.reservationToken.getD []) (fun m v => { m with reservationToken := some v }) aLen s m miAt
+  else if aType = Stun.software then stepStr (fun m v => { m with software := some v }) aLen s m miAt
+  else if aType = Stun.username then stepStr (fun m v => { m with username := some v }) aLen s m miAt
+  else if aType = Stun.mappedAddress then stepAddr none (fun m a => { m with mapped := a }) aLen s m miAt
+  else if aType = Stun.changeRequest then stepU32 (fun m v => { m with changeRequest := some v }) aLen s m miAt
+  else if aType = Stun.sourceAddress then stepAddr none (fun m a => { m with source := a }) aLen s m miAt
+  else if aType = Stun.changedAddress then stepAddr none (fun m a => { m with changed := a }) aLen s m miAt
+  else if aType = Stun.otherAddress then stepAddr none (fun m a => { m with other := a }) aLen s m miAt
+  else if aType = Stun.xorMappedAddress then stepAddr (some m.id) (fun m a => { m with xorMapped := a }) aLen s m miAt
+  else if aType = Stun.xorPeerAddress then stepAddr (some m.id) (fun m a => { m with xorPeer := a }) aLen s m miAt
+  else if aType = Stun.xorRelayedAddress then stepAddr (some m.id) (fun m a => { m with xorRelayed := a }) aLen s m miAt
+  else if aType = Stun.messageIntegrity then stepMI H buf key done aLen s m
+  else if aType = Stun.fingerprint then stepFP buf done aLen s m
   else if aType = Stun.iceControlling then
-    if aLen ≠ 8 then .fail else
-      let r := rdResize m.iceControlling aLen s; .next r.2 { m with iceControlling := r.1 } miAt
+    stepFixed8 m.iceControlling (fun m v => { m with iceControlling := v }) aLen s m miAt
   else if aType = Stun.iceControlled then
-    if aLen ≠ 8 then .fail else
-      let r := rdResize m.iceControlled aLen s; .next r.2 { m with iceControlled := r.1 } miAt
+    stepFixed8 m.iceControlled (fun m v => { m with iceControlled := v }) aLen s m miAt
   else
     .next (s.drop aLen) m miAt
 
@@ -424,6 +434,22 @@ def decodeX (H : Bytes → Bytes) (buf key : Bytes) : Option Decoded := decodeFr
 
 /-- `QXmppStunMessage().decode(buffer, key)`: `none` = `false`, otherwise the resulting message -/
 def decode (H : Bytes → Bytes) (buf key : Bytes) : Option Msg := (decodeX H buf key).map (·.msg)
+
+/-! ## What the integrity theorems talk about (positions inside a packet) -/
+
+/-- the 20 bytes the decoder reads as MESSAGE-INTEGRITY value when the attribute header sits at body offset `off`
+(zero-filled when the packet ends early) -/
+def miValueAt (buf : Bytes) (off : Nat) : Bytes := (rdRaw 20 (buf.drop (Stun.headerSize + off + 4))).1
+
+/-- the bytes protected by a MESSAGE-INTEGRITY attribute at body offset `off`: everything before it, with the header's
+length field set as if the packet ended right after that attribute -/
+def miInputAt (buf : Bytes) (off : Nat) : Bytes := setLen (buf.take (Stun.headerSize + off)) (off + Stun.miAdjust)
+
+/-- the 32-bit FINGERPRINT value read at body offset `off` -/
+def fpValueAt (buf : Bytes) (off : Nat) : Nat := (rdU32 (buf.drop (Stun.headerSize + off + 4))).1
+
+/-- the bytes covered by a FINGERPRINT attribute at body offset `off` -/
+def fpInputAt (buf : Bytes) (off : Nat) : Bytes := setLen (buf.take (Stun.headerSize + off)) (off + Stun.fpAdjust)
 
 /-! ## Does every attribute lie inside the packet? -/
 
@@ -518,5 +544,21 @@ def StrsOK (m : Msg) : Prop :=
   StrOK m.errorPhrase ∧ optAll m.realm StrOK ∧ optAll m.software StrOK ∧ optAll m.username StrOK
 
 instance (m : Msg) : Decidable (StrsOK m) := by unfold StrsOK; exact inferInstance
+
+/-! ## Bit flips and a sample message (used by the defect theorems and the non-vacuity examples) -/
+
+/-- flip bit `i % 8` of byte `i / 8` -/
+def flipBit (b : Bytes) (i : Nat) : Bytes := b.set (i / 8) (b.getD (i / 8) 0 ^^^ (1 <<< (UInt8.ofNat (i % 8))))
+
+/-- a Binding request as ICE sends it, plus TURN and error attributes, IPv4 and IPv6 addresses -/
+def exampleMsg : Msg :=
+  { type := 0x0001, id := [1, 2, 3, 4, 5, 6, 7, 8, 9, 10, 11, 12],
+    xorMapped := { host := .v4 0xC0A80001, port := 3478 },
+    xorPeer := { host := .v6 [0x20, 0x01, 0x0d, 0xb8, 0, 0, 0, 0, 0, 0, 0, 0, 0, 0, 0, 1], port := 49152 },
+    errorCode := 401, errorPhrase := [85, 110, 97, 117, 116, 104, 111, 114, 105, 122, 101, 100]  /- "Unauthorized" -/,
+    priority := some 1845501695, useCandidate := true, lifetime := some 600,
+    data := some [0xde, 0xad, 0xbe], nonce := some [0, 1, 2, 3, 4],
+    realm := some [101, 120, 97, 109, 112, 108, 101, 46, 111, 114, 103]  /- "example.org" -/, username := some [97, 108, 105, 99, 101, 58, 98, 195, 182, 98]  /- "alice:böb" -/,
+    iceControlling := [8, 7, 6, 5, 4, 3, 2, 1] }
 
 end Qx.C14
